@@ -326,6 +326,7 @@ pub fn replay_file(path: &str) -> i32 {
         "autoalloc" => crate::autoalloc::replay(&v),
         "launcher" => crate::launcher::replay(&v),
         "bootconf" => crate::bootconf::replay(&v["replay"]),
+        "auth-retry" => crate::auth_retry::replay(&v["replay"]),
         other => {
             eprintln!("replay for engine {other} is handled by its module");
             2
